@@ -5,10 +5,21 @@ package main
 
 import (
 	"bytes"
+	"encoding/hex"
+	"encoding/json"
 	"fmt"
+	"github.com/xelaj/mtproto/internal/encoding/tl"
+	rmath "github.com/xelaj/mtproto/internal/math"
+	"github.com/xelaj/mtproto/zverif/sched"
 	"math/big"
 	mrand "math/rand"
+	"os"
+	"os/exec"
+	"sort"
+	"strconv"
 	"strings"
+	"sync"
+	"time"
 
 	"github.com/xelaj/mtproto"
 	"github.com/xelaj/mtproto/telegram"
@@ -121,7 +132,212 @@ func srp(s int64, clock int64, extraClient bool) (secrets, string) {
 	return secrets{"srp_ephemeral(A)": o.A}, ""
 }
 
+// rec is one secret of one run, in the order the runs were made; a second process makes the same runs in the
+// same order with the same reproducible inputs, and the two lists are compared position by position
+type rec struct {
+	Scenario, Env, Name, Hex string
+	FromScript               bool
+}
+
+var recs []rec
+
+// ---- first use of the random machinery by several goroutines at once -------------------------------------------
+//
+// Whatever the library builds lazily around the OS source (a keyed generator, a pool, a fallback) is built by the
+// first draw of the process; several clients starting at the same moment make that first draw concurrently.
+// The scenario: N threads, each drawing what one client draws at the start of a key exchange (nonce, new_nonce,
+// DH exponent). Every interleaving of the threads at locks, unlocks and reads of the OS source (a read may block)
+// with at most D non-default choices is run in two fresh processes; a secret that is equal in both, or equal to
+// another secret of the same run, does not come from the OS source.
+
+type firstUseOut struct {
+	Points  []sched.Point
+	Outcome string
+	Fatal   string
+	Secrets map[string]string
+}
+
+func firstUseThreads() int {
+	if n, _ := strconv.Atoi(os.Getenv("VERIF_C19_FIRSTUSE_THREADS")); n > 0 {
+		return n
+	}
+	return 2
+}
+
+func firstUseChild(prefixJSON, out string) {
+	var prefix []int
+	json.Unmarshal([]byte(prefixJSON), &prefix)
+	vcrand.YieldOnRead = true
+	mrand.Seed(1)
+	s := sched.New(prefix)
+	s.UnlockYields = true
+	p := hs.HexBig(hs.TelegramPrime)
+	ga := new(big.Int).Exp(big.NewInt(3), big.NewInt(0x1234567), p)
+	var mu sync.Mutex
+	sec := map[string]string{}
+	put := func(k string, v []byte) { mu.Lock(); sec[k] = hex.EncodeToString(v); mu.Unlock() }
+	for i := 0; i < firstUseThreads(); i++ {
+		i := i
+		s.Go(fmt.Sprintf("client%d", i), func() {
+			n := tl.RandomInt128()
+			put(fmt.Sprintf("client%d.nonce", i), authsrv.Fixed(n.Int, 16))
+			nn := tl.RandomInt256()
+			put(fmt.Sprintf("client%d.new_nonce", i), authsrv.Fixed(nn.Int, 32))
+			_, gb, _ := rmath.MakeGAB(3, ga, p)
+			put(fmt.Sprintf("client%d.dh_exponent(g_b)", i), authsrv.Fixed(gb, 256))
+		})
+	}
+	o := s.Run()
+	res := firstUseOut{Points: s.Points, Outcome: o.String(), Secrets: sec}
+	if f := s.FatalEvent(); f != nil {
+		res.Fatal = f.Msg + " in " + f.Frame
+	}
+	b, _ := json.Marshal(res)
+	os.WriteFile(out, b, 0o644)
+	os.Exit(0)
+}
+
+func firstUseRun(prefix []int) (firstUseOut, error) {
+	f, err := os.CreateTemp("", "c19-first-*.json")
+	if err != nil {
+		return firstUseOut{}, err
+	}
+	f.Close()
+	defer os.Remove(f.Name())
+	pj, _ := json.Marshal(prefix)
+	cmd := exec.Command(os.Args[0])
+	cmd.Env = append(os.Environ(), "VERIF_C19_FIRSTUSE="+string(pj), "VERIF_C19_FIRSTUSE_OUT="+f.Name(), "VERIF_NOEVIDENCE=1", "GOMAXPROCS=2")
+	if outp, err := cmd.CombinedOutput(); err != nil {
+		return firstUseOut{}, fmt.Errorf("%v: %s", err, outp)
+	}
+	var res firstUseOut
+	b, err := os.ReadFile(f.Name())
+	if err != nil {
+		return res, err
+	}
+	return res, json.Unmarshal(b, &res)
+}
+
+func firstUse(run *vr.Run) {
+	threads, D := 2, 2
+	if run.Thorough() {
+		threads, D = 3, 3
+	}
+	os.Setenv("VERIF_C19_FIRSTUSE_THREADS", strconv.Itoa(threads))
+	var mu sync.Mutex
+	outcomes := map[string]int{}
+	type pairRes struct {
+		a, b firstUseOut
+		err  error
+	}
+	// the tree is walked level by level so that the processes of one level run 16-wide
+	level := [][]int{nil}
+	execs, points := 0, 0
+	deadline := time.Now().Add(4 * time.Minute)
+	truncated := false
+	for len(level) > 0 && !truncated {
+		results := make([]pairRes, len(level))
+		sem := make(chan struct{}, 8)
+		var wg sync.WaitGroup
+		for i, pre := range level {
+			if time.Now().After(deadline) {
+				truncated = true
+				level = level[:i]
+				results = results[:i]
+				break
+			}
+			wg.Add(1)
+			sem <- struct{}{}
+			go func(i int, pre []int) {
+				defer wg.Done()
+				defer func() { <-sem }()
+				a, err := firstUseRun(pre)
+				if err != nil {
+					results[i] = pairRes{err: err}
+					return
+				}
+				b, err := firstUseRun(pre)
+				results[i] = pairRes{a, b, err}
+			}(i, pre)
+		}
+		wg.Wait()
+		var next [][]int
+		for i, r := range results {
+			pre := level[i]
+			if r.err != nil {
+				fmt.Fprintln(os.Stderr, "HARNESS-ERROR: first-use worker:", r.err)
+				os.Exit(2)
+			}
+			execs++
+			points += len(r.a.Points)
+			x := sched.Exec{Points: r.a.Points}
+			choices := sched.Choices(x)
+			id := fmt.Sprintf("first-use threads=%d choices=%v", threads, choices)
+			rep := map[string]any{"first_use_choices": choices, "threads": threads}
+			mu.Lock()
+			outcomes[r.a.Outcome]++
+			mu.Unlock()
+			run.Eval(id, true)
+			run.Outcome("first-use:" + r.a.Outcome)
+			if r.a.Fatal != "" || r.a.Outcome != sched.Quiescent.String() {
+				run.Violation("first-use|"+r.a.Outcome+"|"+vr.MsgClass(r.a.Fatal), id+": the draws did not complete: "+r.a.Outcome+" "+r.a.Fatal, rep)
+			}
+			if len(r.a.Points) != len(r.b.Points) {
+				fmt.Fprintln(os.Stderr, "HARNESS-ERROR: first-use: two processes diverge under one choice list", choices)
+				os.Exit(2)
+			}
+			seen := map[string]string{}
+			names := make([]string, 0, len(r.a.Secrets))
+			for k := range r.a.Secrets {
+				names = append(names, k)
+			}
+			sort.Strings(names)
+			for _, k := range names {
+				v := r.a.Secrets[k]
+				kind := k[strings.Index(k, ".")+1:]
+				if v == r.b.Secrets[k] {
+					run.Violation("first-use|repeats-in-a-second-process|"+kind, fmt.Sprintf("%s: %s is identical (%.16s...) in two fresh processes run under the same interleaving: it does not come from the OS random source", id, k, v), rep)
+				}
+				if o, dup := seen[kind+v]; dup {
+					run.Violation("first-use|two-clients-draw-the-same|"+kind, fmt.Sprintf("%s: %s and %s are the same value (%.16s...)", id, o, k, v), rep)
+				}
+				seen[kind+v] = k
+			}
+			next = append(next, sched.Children(x, len(pre), sched.Bounds{Preemptions: -1, EnvDev: -1, Delays: D})...)
+		}
+		level = next
+	}
+	run.Set("first_use", map[string]any{"threads": threads, "delay_bound": D, "interleavings_each_run_in_two_fresh_processes": execs, "scheduling_points": points, "complete": !truncated, "outcomes": outcomes})
+	if truncated {
+		run.Truncated("first-use exploration reached its time budget")
+	}
+}
+
 func main() {
+	if pj := os.Getenv("VERIF_C19_FIRSTUSE"); pj != "" {
+		firstUseChild(pj, os.Getenv("VERIF_C19_FIRSTUSE_OUT"))
+	}
+	childOut := os.Getenv("VERIF_C19_CHILD_OUT")
+	var child *exec.Cmd
+	var childFile string
+	if childOut == "" {
+		// the same enumeration in a second, fresh process (state that a process keeps between runs - a fallback
+		// generator created on the first failure, a pool, a lazily seeded source - is in the same condition at the
+		// same position of both processes, so a secret that depends only on reproducible inputs and on the
+		// history of the process is equal in both)
+		f, err := os.CreateTemp("", "c19-child-*.json")
+		if err == nil {
+			childFile = f.Name()
+			f.Close()
+			child = exec.Command(os.Args[0], os.Args[1:]...)
+			child.Env = append(os.Environ(), "VERIF_C19_CHILD_OUT="+childFile, "VERIF_NOEVIDENCE=1")
+			child.Stdout, child.Stderr = nil, nil
+			if err := child.Start(); err != nil {
+				child = nil
+			}
+			defer os.Remove(childFile)
+		}
+	}
 	run := vr.New("C19", "exploration")
 	defer run.Recover()
 	run.Rule("environment alphabet: global math/rand seed in {1, 2, 0x5eed} x pinned clock in {T0, T0+1s} x scenario {key exchange, key exchange after creating another client, SRP answer, SRP answer after creating a client, SRP answer to a challenge that carries 8 / 256 bytes of server-chosen secure_random} x fault {none, the 1st / 2nd / 3rd read of the OS random source fails, or returns 00..00, or returns ff..ff}; each environment is run twice and all runs are compared pairwise; a secret that repeats is a violation, and so is any 8-byte window of a nonce that occurs twice anywhere in the 12 consecutive exchanges of a group; non-trivial = distinct (scenario, environment, secret) comparison")
@@ -162,6 +378,14 @@ func main() {
 							continue
 						}
 						all = append(all, obs{fmt.Sprintf("seed=%d clock=%d run=%d fail=%d", s, c/1e9, rep, fa), sec})
+						names := make([]string, 0, len(sec))
+						for name := range sec {
+							names = append(names, name)
+						}
+						sort.Strings(names)
+						for _, name := range names {
+							recs = append(recs, rec{scn.name, all[len(all)-1].env, name, hex.EncodeToString(sec[name]), scriptAt > 0 && fromScript(name, sec[name])})
+						}
 					}
 				}
 			}
@@ -227,6 +451,50 @@ func main() {
 		}
 		failAt, scriptAt = 0, 0
 	}
+	if childOut != "" {
+		b, _ := json.Marshal(recs)
+		os.WriteFile(childOut, b, 0o644)
+		os.Exit(0)
+	}
+	crossed := 0
+	if child != nil {
+		child.Wait()
+		var other []rec
+		if b, err := os.ReadFile(childFile); err == nil {
+			json.Unmarshal(b, &other)
+		}
+		// positions are matched by (scenario, environment, name, occurrence): a run that refused to go on in one
+		// process only (it may, under a fault) does not shift the rest
+		idx := map[string][]rec{}
+		for _, r := range other {
+			k := r.Scenario + "|" + r.Env + "|" + r.Name
+			idx[k] = append(idx[k], r)
+		}
+		used := map[string]int{}
+		for _, r := range recs {
+			k := r.Scenario + "|" + r.Env + "|" + r.Name
+			n := used[k]
+			used[k]++
+			if n >= len(idx[k]) || r.FromScript || r.Hex == "" {
+				continue
+			}
+			crossed++
+			run.Eval("second process|"+k, true)
+			if idx[k][n].Hex == r.Hex {
+				fault := "no-fault"
+				if !strings.HasSuffix(r.Env, "fail=0") {
+					fault = "under-an-os-source-fault"
+				}
+				run.Violation(fmt.Sprintf("repeats-in-a-second-process|%s|%s|%s", r.Scenario, r.Name, fault),
+					fmt.Sprintf("%s: %s of run [%s] is identical (%.16s...) in two separate processes that made the same runs with the same seeds and clock: it is a function of reproducible inputs and of what the process did before, not of the OS random source", r.Scenario, r.Name, r.Env, r.Hex), map[string]any{"scenario": r.Scenario, "secret": r.Name})
+			}
+		}
+		if len(other) == 0 {
+			run.Set("second_process", "did not report (not judged)")
+		}
+	}
+	run.Set("compared_with_a_second_process", crossed)
+	firstUse(run)
 	run.Sample(map[string]any{"scenario": "key-exchange", "environment": "math/rand seeded with 1, clock pinned to T0", "compared": "nonce, new_nonce, g_b of run 0 vs run 1"})
 	run.Finish()
 }
